@@ -1,7 +1,8 @@
 // c07_nul.cpp - C07, data with embedded NUL bytes (the grammar-level corpus uses C-string alphabets): the same bytes through
 // every input class that takes a length - memory_input( pointer, size ), memory_input( begin, end ), memory_input( const
 // std::string& ), memory_input( std::string_view ), string_input, buffer_input with a one-byte reader, istream_input, and
-// read_input / mmap_input over a file - must give the same result, consumed length and action trace.
+// read_input / mmap_input over a file - must give the same result, consumed length and action trace; and memory inputs constructed with an explicit start
+// position must report the same positions under eager and lazy tracking.
 // Prints "BAD ..." lines and "DONE <cases> <bad>".
 #include <cstdio>
 #include <fstream>
@@ -99,8 +100,67 @@ static void one_case( const char* rule, const std::string& data, const std::stri
    }
 }
 
+// memory inputs constructed with an explicit start position ( byte, line, column ): eager and lazy tracking must report
+// the same positions to actions, in errors and at the end
+struct pitem : seq< plus< not_one< ';', '!' > >, one< ';' > > {};
+struct P : seq< star< sor< pitem, one< '\n' > > >, must< eof > > {};
+static std::string p_log;
+template< typename R > struct pact : nothing< R > {};
+template<> struct pact< pitem >
+{
+   template< typename AI > static void apply( const AI& in )
+   {
+      const auto p = in.position();
+      p_log += "i[" + std::to_string( p.byte ) + ":" + std::to_string( p.line ) + ":" + std::to_string( p.column ) + "+" + std::to_string( in.size() ) + "]";
+   }
+};
+
+template< typename In >
+static std::string prun( In&& in )
+{
+   p_log.clear();
+   std::string r;
+   try {
+      r = parse< P, pact >( in ) ? "T" : "F";
+   }
+   catch( const parse_error& e ) {
+      const auto& p = e.position_object();
+      r = "E{" + std::to_string( p.byte ) + ":" + std::to_string( p.line ) + ":" + std::to_string( p.column ) + "}";
+   }
+   const auto p = in.position();
+   return r + "@" + std::to_string( in.byte() ) + "=" + std::to_string( p.byte ) + ":" + std::to_string( p.line ) + ":" + std::to_string( p.column ) + " " + p_log;
+}
+
+static void start_cases()
+{
+   const std::vector< std::string > datas = { "", "ab;", "ab;\ncd;\n", "a\nb;c;", "ab;\n!x", "\n\nq;!" };
+   const std::size_t starts[][ 3 ] = { { 0, 1, 1 }, { 100, 7, 5 }, { 3, 1, 4 }, { 0, 9, 1 }, { 17, 1, 1 } };
+   for( const auto& d : datas ) {
+      for( const auto& st : starts ) {
+         ++n_cases;
+         const char* b = d.data();
+         const char* e = d.data() + d.size();
+         const std::string eager = prun( memory_input< tracking_mode::eager >( b, e, "s", st[ 0 ], st[ 1 ], st[ 2 ] ) );
+         const std::string lazy = prun( memory_input< tracking_mode::lazy >( b, e, "s", st[ 0 ], st[ 1 ], st[ 2 ] ) );
+         if( eager != lazy ) {
+            ++n_bad;
+            std::printf( "BAD memory_input< lazy >( begin, end, source, byte, line, column ) on P start %zu:%zu:%zu data of %zu bytes: '%s' instead of '%s' (memory_input< eager >, same constructor)\n", st[ 0 ], st[ 1 ], st[ 2 ], d.size(), lazy.c_str(), eager.c_str() );
+         }
+         // the default start must agree with the plain constructor
+         if( st[ 0 ] == 0 && st[ 1 ] == 1 && st[ 2 ] == 1 ) {
+            const std::string plain = prun( memory_input<>( b, e, "s" ) );
+            if( plain != eager ) {
+               ++n_bad;
+               std::printf( "BAD memory_input( begin, end, source, 0, 1, 1 ) on P data of %zu bytes: '%s' instead of '%s' (memory_input( begin, end, source ))\n", d.size(), eager.c_str(), plain.c_str() );
+            }
+         }
+      }
+   }
+}
+
 int main()
 {
+   start_cases();
    const std::string path = "/tmp/c07_nul_" + std::to_string( getpid() ) + ".bin";
    const std::string alphabet( "a\0b;", 4 );
    std::vector< std::string > cur{ "" }, all{ "" };
